@@ -70,7 +70,7 @@ PROPS = {
         "PARTIAL. Logic part proved: programs over shared cells under an arbitrary interleaving - write-free programs leave the store unchanged, return what they return sequentially and never conflict. Runtime part not provable here: that the Go code performs no other shared write and the Go memory model; tied by running 16 goroutines on one shared evaluator/filter under the race detector (first use included), comparing with sequential results and snapshotting the shared tree",
         ["the race detector only judges the accesses that occur in the run", "Go memory model, scheduler and GC are not modelled"], race=True),
     "C13": P("P_C13.v", ["C13"], T_API,
-        "PARTIAL. The model's evaluator is stateless: the result after any history equals the fresh result; Expression() is the creation string. That the Go code never writes to the caller's datum is true by construction in a functional model and therefore tied at run time only (serialise before/after every call)",
+        "PARTIAL. The model's evaluator is stateless: the result after any history equals the fresh result; Expression() is the creation string. That the Go code never writes to the caller's datum is true by construction in a functional model; on the code side it is tied at run time (serialise before/after every call, histories against fresh evaluators) and statically (TieWrites.v over tables T3 regenerates from the source: no assignment to anything shared and no writing call on anything but a container the function made itself in any function reachable from Evaluate / Execute; no package-level variable that is written)",
         [MODEL_NOTE, "absence of writes to caller memory is observed, not proved"]),
     "C14": P("P_C14.v", ["C14"], T_API,
         "map iteration order is an adversarial permutation of the entry list: sort_keys is permutation-invariant, evaluation is invariant under permutation of duplicate-free maps - string-keyed (which quantifiers visit in sorted key order) and with any other key type (indexed and tested for membership only) - anywhere in the datum, in any number of places; filter results are permutation-related; the implementation is called repeatedly under Go's randomised iteration",
@@ -80,7 +80,7 @@ PROPS = {
         [MODEL_NOTE, "side conditions of the proved family (stated in the records the theorem ranges over): a bare name at the head of an expression is not the keyword `not`, the name of a quantified selector is none of `contains not matches is in`, a double-quoted literal of the operator grid does not begin with `/` (the D9 family is c16_literal_fidelity_all's)"]),
     "C17": P("P_C17.v", ["C17"], T_API,
         "Execute on slices, arrays and maps keeps exactly the elements on which evaluate is true, in order, with the stated result type; nil filter identity; first error; non-containers are errors; idempotence; partition",
-        [MODEL_NOTE, "input immutability is observed at run time"],
+        [MODEL_NOTE, "input immutability: observed at run time (the input serialised before and after every call) and tied statically - every call that can write through its target on the evaluation path (append, copy, reflect.Append, SetMapIndex, sort ...) targets a container the function made itself (TieWrites.v, regenerated from filter.go / evaluate.go on every run)"],
         reference="the model's execute (kept = filter is_true) and element-wise coherence with Evaluate"),
     "C18": P("P_C18.v", ["C18"], T_API,
         "options fold: distinct kinds commute, last wins, nil ignored, creation options are re-issued on every Evaluate, neutral settings (tag bexpr, budget 0 or >= N, identity hook, unknown value when all selectors resolve) change nothing, the hook's value is what operators see; all subsets and permutations are enumerated exhaustively on the implementation",
